@@ -336,7 +336,7 @@ func init() {
 		ID: "C15", Level: "exploration",
 		Rule: "every expression of four slices that Compile accepts — (Fn) every function x arity 0..max+1 x every typed argument tuple, (Op) every binary operator x every ordered typed operand pair, (Misc) odd predicates on all axis names in all positions, variables, (Tok) every sequence of <= 4 tokens — is run through Select (drained) and Evaluate (drained) on the empty document, a 7-node document with every node kind and T(<=1..2), from every context node; oracle: terminates within the navigator-call budget, a panic value is never a runtime.Error (package-raised error values are allowed), Evaluate yields bool/float64/string/*NodeIterator; non-trivial = evaluation that produced a value or a deliberate error; distinct = distinct accepted expressions",
 		Assumptions:    []string{"termination decided by a navigator-call budget (2e6 calls on <= 9-node documents)", "bounded slices"},
-		Budget:         budget(90*time.Second, 12*time.Minute),
+		Budget:         budget(180*time.Second, 12*time.Minute),
 		MinRefOutcomes: 1,
 		Spaces:         c15Spaces,
 	})
